@@ -107,16 +107,29 @@ def rule_sign_reaches_every_ok(col, facts):
     n = 0
     for name in ("parse_complete", "fast_path_complete", "parse_partial", "fast_path_partial"):
         f = facts.fn(PF + "parse::" + name)
-        neg = [l for l, nm in f.names.items() if nm == "is_negative"]
-        col.check(R, "%s:is_negative" % name, len(neg) == 1, "no unique `is_negative` local", f.loc())
-        if len(neg) != 1:
+        # the sign flag = every local holding the unwrapped result of parse_mantissa_sign (whatever it is called)
+        from rules.core import local_expr
+        negs = set()
+        for l in sorted(f.defs()):
+            ds = f.defs().get(l, [])
+            if len(ds) != 1 or ds[0][3]:
+                continue
+            e = local_expr(f, l)
+            if e[0] == "proj" and any(last_seg(x[1]) == "parse_mantissa_sign" for x in expr_calls(e)) and not any(last_seg(x[1]) == "from_residual" for x in expr_calls(e)):
+                if ("as", 0) in [tuple(q) if isinstance(q, (list, tuple)) else q for q in e[2]]:
+                    negs.add(l)
+        col.check(R, "%s:is_negative" % name, len(negs) >= 1, "the unwrapped result of parse_mantissa_sign was not found", f.loc())
+        if not negs:
             continue
-        neg = neg[0]
         users = set()
         for i, b in enumerate(f.blocks):
             if not f.live(i):
                 continue
-            if any(st[0] == "=" and _mentions(st[2], neg) for st in b["s"]) or _mentions(b["t"].get("a"), neg) or _mentions(b["t"].get("d"), neg):
+            hit = False
+            for st in b["s"]:
+                if st[0] == "=" and any(_mentions(st[2], l) for l in negs) and not (st[1][0] in negs and not st[1][1]):
+                    hit = True
+            if hit or any(_mentions(b["t"].get("a"), l) or _mentions(b["t"].get("d"), l) for l in negs):
                 users.add(i)
         k = 0
         for i, b in enumerate(f.blocks):
